@@ -105,6 +105,17 @@ CHECKS["C14"] = dict(
     note=NOTE_BASE + "Modelled: coroutine handlers as 'spawned, run after the operation'; asyncio task scheduling itself is not modelled.",
     technique="Coq proof (trace equations of the driver model) + trace correspondence with real handlers",
     design="4/C14")
+CHECKS["C12"] = dict(
+    text="Theorems over the (total) driver model for every device state and message: unknown_property_is_ignored, wrong_kind_is_ignored, "
+         "unexpected_kinds_are_ignored, inapplicable_children_are_skipped, only_the_named_property_can_change (frame). That the implementation "
+         "raises nothing and keeps serving is established by the correspondence: a fault catalogue (unknown device/property/element, kind mismatch "
+         "for every pair of kinds, writes to lights, invalid switch/number/base64 text, wrong/non-numeric/missing BLOB size, no/duplicate children, "
+         "def/set/del/message from a client, unknown getProperties/enableBLOB targets, non-message elements) at every position of a valid session, "
+         "through the real TCP handler, the real TTY handler and direct router calls; per step: raised?, connection alive?, device state, what the "
+         "second client received, compared with the model fed with what the model's own parser accepts.",
+    note=NOTE_BASE + "The asyncio receive loop itself is exercised, not modelled (its termination behaviour is C18's model).",
+    technique="Coq proof (frame / ignore theorems over the driver model) + fault-catalogue correspondence through real transports",
+    design="4/C12")
 PENDING = {}
 props = [json.loads(l) for l in open(os.path.join(V, "properties.jsonl"))]
 checks, na = [], []
